@@ -95,7 +95,8 @@ theorem step_subst {T : Table} {s : MState} {c0 : SChar} {tl : List SChar} {a : 
     step T s = some
       { pre := (markLc (s.rest.take (skipLen s.rest))).reverse ++ s.pre,
         rest := spliceChars a c0 ++ tl.drop ((lexTok (c0 :: tl)).len - 1),
-        st := (trans s.st (lexTok (c0 :: tl)).kind).onSub, subs := s.subs + 1, toks := s.toks } := by
+        st := (trans s.st (lexTok (c0 :: tl)).kind).onSub, subs := s.subs + 1, toks := s.toks,
+        hd := s.hd } := by
   unfold step; simp only [hdrop, hel]
 
 theorem step_take {T : Table} {s : MState} {c0 : SChar} {tl : List SChar}
@@ -103,11 +104,12 @@ theorem step_take {T : Table} {s : MState} {c0 : SChar} {tl : List SChar}
     (hel : eligible T ((markLc (s.rest.take (skipLen s.rest))).reverse ++ s.pre) c0
       (lexTok (c0 :: tl)).kind (trans s.st (lexTok (c0 :: tl)).kind).sub = none) :
     step T s = some
-      { pre := (tl.take ((lexTok (c0 :: tl)).len - 1)).reverse ++ c0 ::
+      { pre := (tl.take (spanLen s c0 tl)).reverse ++ c0 ::
                  ((markLc (s.rest.take (skipLen s.rest))).reverse ++ s.pre),
-        rest := tl.drop ((lexTok (c0 :: tl)).len - 1),
+        rest := tl.drop (spanLen s c0 tl),
         st := (trans s.st (lexTok (c0 :: tl)).kind).onTake, subs := s.subs,
-        toks := (lexTok (c0 :: tl)).kind :: s.toks } := by
+        toks := tokOutC s.hd s.st (chars (c0 :: tl)) ++ s.toks,
+        hd := hdNextC s.hd s.st (chars (c0 :: tl)) } := by
   unfold step; simp only [hdrop, hel]
 
 theorem hstep_subst {T : Table} {h : HState} {c : Char} {t : List Char} {a : Alias}
@@ -118,20 +120,21 @@ theorem hstep_subst {T : Table} {h : HState} {c : Char} {t : List Char} {a : Ali
         active := { name := a.name, endRem := (t.drop ((lexTokC (c :: t)).len - 1)).length,
                     eb := endsBlank a.value } ::
           (activeAt h.active (t.length + 1)).map (clamp (t.drop ((lexTokC (c :: t)).len - 1)).length),
-        st := (trans h.st (lexTokC (c :: t)).kind).onSub, toks := h.toks,
+        st := (trans h.st (lexTokC (c :: t)).kind).onSub, toks := h.toks, hd := h.hd,
         tb := flagRun h.active true (skipLenC h.rest) h.tb h.rest } := by
   unfold hstep; simp only [hd, hc]; rfl
 
 theorem hstep_take {T : Table} {h : HState} {c : Char} {t : List Char}
     (hd : h.rest.drop (skipLenC h.rest) = c :: t) (hc : hcand T h = none) :
     hstep T h = some
-      { out := (t.take ((lexTokC (c :: t)).len - 1)).reverse ++ c ::
+      { out := (t.take (spanLenC h.hd h.st (c :: t))).reverse ++ c ::
                  ((h.rest.take (skipLenC h.rest)).reverse ++ h.out),
-        rest := t.drop ((lexTokC (c :: t)).len - 1),
-        active := activeAt h.active (t.drop ((lexTokC (c :: t)).len - 1)).length,
+        rest := t.drop (spanLenC h.hd h.st (c :: t)),
+        active := activeAt h.active (t.drop (spanLenC h.hd h.st (c :: t))).length,
         st := (trans h.st (lexTokC (c :: t)).kind).onTake,
-        toks := (lexTokC (c :: t)).kind :: h.toks,
-        tb := flagRun h.active false ((lexTokC (c :: t)).len - 1 + 1)
+        toks := tokOutC h.hd h.st (c :: t) ++ h.toks,
+        hd := hdNextC h.hd h.st (c :: t),
+        tb := flagRun h.active false (spanLenC h.hd h.st (c :: t) + 1)
                 (flagRun h.active true (skipLenC h.rest) h.tb h.rest) (c :: t) } := by
   unfold hstep; simp only [hd, hc]
 
@@ -141,7 +144,7 @@ theorem chars_length (l : List SChar) : (chars l).length = l.length := by simp [
 theorem corr_step {T : Table} {s s' : MState} {h h' : HState}
     (hs : Sim s h) (hco : Corr h.active s.rest) (hc : mcand T s = hcand T h)
     (h1 : step T s = some s') (h2 : hstep T h = some h') : Corr h'.active s'.rest := by
-  obtain ⟨hr, _, _, _⟩ := hs
+  obtain ⟨hr, _, hst, _, hhd⟩ := hs
   have hk : skipLenC h.rest = skipLen s.rest := by rw [hr]; rfl
   unfold mcand at hc
   cases hdrop : s.rest.drop (skipLen s.rest) with
@@ -188,9 +191,10 @@ theorem corr_step {T : Table} {s s' : MState} {h h' : HState}
       rw [step_take hdrop hel] at h1
       rw [hstep_take hd hc.symm] at h2
       cases h1; cases h2
-      simp only [htok]
-      have hlen : ((chars tl).drop ((lexTok (c0 :: tl)).len - 1)).length
-          = (tl.drop ((lexTok (c0 :: tl)).len - 1)).length := by
+      have hsp : spanLenC h.hd h.st (c0.c :: chars tl) = spanLen s c0 tl := by
+        unfold spanLen; rw [hhd, hst]; rfl
+      simp only [hsp]
+      have hlen : ((chars tl).drop (spanLen s c0 tl)).length = (tl.drop (spanLen s c0 tl)).length := by
         rw [← chars_drop, chars_length]
       rw [hlen]
       apply corr_congr _ _ (corr_drop _ _ hco'.2)
